@@ -134,9 +134,12 @@ def gen_nodes(n, cname):
 
 def harnesses(tier):
     q = tier == 'quick'
-    mds = [(15, 1), (0, 0), (5, 1), (10, 0)] if q else [(m, v) for m in range(16) for v in (0, 1)]
+    mds = [(15, 1), (0, 0), (5, 1), (10, 0)]
     n = 2 if q else 3
     jobs = [dict(n=n, md=m, visible_flag=v, classes=CLASSES[c], cname=c) for c in CLASSES for (m, v) in mds]
+    if not q:
+        # every combination of the metadata options with two nodes (three nodes only for the four combinations above: measured 18000 s of solver time for all 32)
+        jobs += [dict(n=2, md=m, visible_flag=v, classes=CLASSES[c], cname=c) for c in CLASSES for m in range(16) for v in (0, 1) if (m, v) not in mds]
     I63 = (1 << 63) - 1; M6 = 10 ** 6
     def both(kind, field, lo, hi, values, md=31):
         # symbolic over a 6-digit range (the digit loops of a 64-bit value are beyond the solver: 5 s per query), concrete at the type boundaries
@@ -152,7 +155,7 @@ def harnesses(tier):
                 bounds='one object per run, one symbolic field per job, the other fields concrete; timestamps concrete', wall=900),
         Harness('pbf_dense_block_roundtrip', 'codec', h_pbf_nodes, jobs=jobs, testgen=lambda rnd: [dict(_job=0, **t) for t in gen_nodes(n, 'small')(rnd)],
                 desc='%d nodes with symbolic id / version / timestamp / changeset / uid / visible / location through PrimitiveBlock::add_dense_node + DenseNodes::serialize + SerializeBlob (no compression), then length prefix, decode_blob_header, decode_blob and PBFPrimitiveBlockDecoder: every field comes back identical (or as its default when the metadata option drops it); the reader accepts what the writer wrote' % n,
-                bounds='%d nodes per block; id / version / changeset / uid / visible symbolic inside four magnitude classes; timestamps and coordinates concrete boundary values per class (their x1000/1000 and x100/100 conversions are 64-bit multiply/divide by constants, which bit-blasting does not decide in time: measured 53 s per query) (small / medium / large / extreme incl. the type boundaries and negative deltas) that fix the varint lengths; metadata subsets %s; no user names and tags (string table), no compression' % (n, 'sampled' if q else 'all 16 x visible flag'), wall=900),
+                bounds='%d nodes per block; id / version / changeset / uid / visible symbolic inside four magnitude classes; timestamps and coordinates concrete boundary values per class (their x1000/1000 and x100/100 conversions are 64-bit multiply/divide by constants, which bit-blasting does not decide in time: measured 53 s per query) (small / medium / large / extreme incl. the type boundaries and negative deltas) that fix the varint lengths; metadata subsets %s; no user names and tags (string table), no compression' % (n, 'sampled' if q else 'all 16 x visible flag with 2 nodes, the sampled four with 3 nodes'), wall=900 if q else 2400),
         Harness('xml_discussion_reader_half', 'xml', C02.h_xml_discussion, jobs=[dict(n=k) for k in ((5, 7) if q else (3, 4, 5, 6, 7, 8, 9))], setup=C03.setup_xml,
                 tests=[dict(_job=0, ev0=1, ev1=2, ev2=3, ev3=4, ev4=7, ch0=65, ch1=66, ch2=67)],
                 desc='reader half of the XML round trip for changeset discussions: expat delivers the text of a comment in several character-data pieces whenever the writer escaped a character in it; XMLParser must deliver the concatenation (same harness as C02 xml_discussion_content)',
